@@ -25,8 +25,8 @@ PARAMS = [  # (k, d, eta)
 
 TPI_PAIRS_QUICK = ["origin_pm", "frame_pm", "pm_pm", "rb_rb", "rb_pm", "mframe_rb"]
 TPI_PAIRS_MORE = ["pm_rb", "frame_rb", "mframe_pm"]
-REV_PAIRS_QUICK = ["origin_rb", "rb_rb"]
-REV_PAIRS_MORE = ["mframe_rb", "rb_mframe"]
+REV_PAIRS_QUICK = ["origin_rb", "rb_rb", "rb_mframe"]  # rb_mframe: rotating frame as SECOND partner (seeded C08-h)
+REV_PAIRS_MORE = ["mframe_rb"]
 
 # relative joint angles (rad) of the on-manifold states; 0, pi/2, pi, 3pi/2 are the quadrant
 # boundaries of Revolute.l (x or y projection exactly/nearly zero)
